@@ -185,7 +185,7 @@ PROPS = {
                    "stages_preserve_order (buffered(n) emits in order under every completion schedule; every stage uses buffered - read from the "
                    "source), temp_file_complete (the CLI temp file is complete whatever the write-behind timing, given the flush found in the "
                    "source). Tied to the code by CLI runs (bita compress -> bita clone -> bita info, file and pipe input, all kinds of sources "
-                   "incl. empty / 1 byte / duplicates), CLI archive == library archive == model archive (byte-exact digest), clone vs model.",
+                   "incl. empty / 1 byte / duplicates), CLI archive == library archive == model archive (byte-exact digest), clone vs model. cli_accepted_options_are_valid: for every command line the option parser (model of src/cli.rs, Bita.Model.Options) accepts, the hypothesis OptsOK of these theorems holds iff the configuration is outside an exactly characterised misuse set; tied in process to cli::parse_opts (suite opts).",
         level_note="PARTIAL for schedules: order preservation of futures::buffered and tokio::fs::File's write-behind are modelled from their "
                    "source/documentation, not verified; tied by the extracted combinator/flush facts and repeated perturbed runs (C12). Codec "
                    "assumed to round-trip (CodecOK); size hypotheses: archive < 2^63 bytes, <= 2^32 chunks (indexes are stored as u32).",
@@ -194,8 +194,8 @@ PROPS = {
         module="Bita.Props.C01",
         level="proof",
         needs_bita=True,
-        required_theorems=["compress_conforms", "roundtrip", "cli_roundtrip", "roundtrip_over_http", "stages_preserve_order", "temp_file_complete", "lib_temp_file_flushed_fact"],
-        suites=dict(quick=[("py", "c01_roundtrip"), ("l1", "c08-http")], thorough=[("py", "c01_roundtrip"), ("py", "c12_determinism"), ("l1", "c08-http")]),
+        required_theorems=["compress_conforms", "roundtrip", "cli_roundtrip", "roundtrip_over_http", "stages_preserve_order", "temp_file_complete", "lib_temp_file_flushed_fact", "cli_accepted_options_are_valid"],
+        suites=dict(quick=[("py", "c01_roundtrip"), ("l1", "c08-http"), ("l1", "opts")], thorough=[("py", "c01_roundtrip"), ("py", "c12_determinism"), ("l1", "c08-http"), ("l1", "opts")]),
         rule="random sources (empty, 1 byte, zeros, constant, repetitive blocks, text, random; up to 20 kB) x random valid configs x hash "
              "lengths x none/brotli levels x buffer counts x file/stdin; oracles: clone output == source, info reports size and Blake2 "
              "checksum, temp file removed, CLI archive == library archive; model: archive digest (both writers) and clone result/output",
@@ -230,7 +230,7 @@ PROPS = {
                    "carries a recomputed checksum), pin_mismatch_refused + pinned_header_is_genuine (--verify-header, full byte comparison read "
                    "from the source), verify_output_sound. Tied to the code by CLI clones of mutated archives (bit flips in header and payload, "
                    "truncations, overwrites, payload swaps, trailing garbage; with seeds / --verify-output / --verify-header) and of misbehaving "
-                   "HTTP servers; result and output compared with the model.",
+                   "HTTP servers; result and output compared with the model. verify_header_text_gate / verify_header_hex_accepted: the --verify-header TEXT (model of parse_hash_sum / hex_str_to_vec, Bita.Model.Options) denotes pair by pair exactly the bytes that are compared; tied in process to cli::parse_opts (suite opts).",
         level_note="The header checksum is a hash, not a MAC: 'any change inside the header is rejected' is proved in the only form that is true "
                    "(unchanged, or collision, or checksum rewritten consistently - excluded by the pin). Blake2 enters only through collision "
                    "reductions. hash length >= 8 per the property; theorems hold for 1..64.",
@@ -239,8 +239,9 @@ PROPS = {
         module="Bita.Props.C04",
         level="proof",
         needs_bita=True,
-        required_theorems=["clone_sound_against_any_reader", "clone_sound_against_any_server", "clone_steps_as_modelled", "header_tamper", "pin_mismatch_refused", "pinned_header_is_genuine", "verify_output_sound", "verify_output_sound_file", "pin_length_checked_fact"],
-        suites=dict(quick=[("py", "c04_corruption"), ("l1", "fmt")], thorough=[("py", "c04_corruption"), ("l1", "fmt")]),
+        required_theorems=["clone_sound_against_any_reader", "clone_sound_against_any_server", "clone_steps_as_modelled", "header_tamper", "pin_mismatch_refused", "pinned_header_is_genuine", "verify_output_sound", "verify_output_sound_file", "pin_length_checked_fact",
+                           "verify_header_text_gate", "verify_header_hex_accepted", "verify_header_pair_denotes"],
+        suites=dict(quick=[("py", "c04_corruption"), ("l1", "fmt"), ("l1", "opts")], thorough=[("py", "c04_corruption"), ("l1", "fmt"), ("l1", "opts")]),
         rule="per archive (none/brotli, hash length 8/16/64): 120 sampled single-bit flips (every bit of tiny archives in thorough), "
              "truncations at structural offsets, random overwrites, payload swap, trailing garbage, x {plain, seed, --verify-output, pinned}; "
              "7 server misbehaviours; oracle: error or output == source, altered header never accepted; model: result + output digest",
@@ -296,7 +297,7 @@ PROPS = {
                    "chunk, offsets back-to-back, stored <= source size, valid rebuild indexes summing to the source size, options verbatim), "
                    "descriptors_unique_first_occurrence, reader_reports_verbatim, temp_file_complete. Tied to the code by archives of both real "
                    "writers judged by an INDEPENDENT Python decoder written from header.rs' table and the .proto (vlib/pyfmt.py), by bita info, "
-                   "and by the prost encode/decode correspondence (random + wire-level crafted + mutated dictionaries).",
+                   "and by the prost encode/decode correspondence (random + wire-level crafted + mutated dictionaries). cli_requested_is_reported / cli_accepts_only_recordable_options / size_text_denotes / chunker_options_accepted_iff: the option texts of bita compress (model of src/cli.rs + string_utils.rs + FilterBits::from_size, Bita.Model.Options, option table regenerated from the source) denote exactly the recorded and reported values; tied in process to cli::parse_opts (suite opts).",
         level_note="The independent decoder lives in the correspondence (Python), the theorems are about the model's encoder/decoder pair, each "
                    "tied to prost separately. hinj: no two different source chunks with equal full hash.",
         technique="Lean 4 proof (varint/field/message round-trips, fold invariants of the writer) + independent-decoder conformance runs",
@@ -304,8 +305,9 @@ PROPS = {
         module="Bita.Props.C11",
         level="proof",
         needs_bita=True,
-        required_theorems=["header_layout", "proto_roundtrip", "writer_invariants", "descriptors_unique_first_occurrence", "reader_reports_verbatim", "lib_temp_file_flushed_fact", "cli_sizes_fit_u32_fact"],
-        suites=dict(quick=[("py", "c11_conformance"), ("l1", "fmt")], thorough=[("py", "c11_conformance"), ("l1", "fmt")]),
+        required_theorems=["header_layout", "proto_roundtrip", "writer_invariants", "descriptors_unique_first_occurrence", "reader_reports_verbatim", "lib_temp_file_flushed_fact", "cli_sizes_fit_u32_fact", "size_text_denotes", "chunker_options_accepted_iff",
+                           "cli_accepts_only_recordable_options", "cli_requested_is_reported"],
+        suites=dict(quick=[("py", "c11_conformance"), ("l1", "fmt"), ("l1", "opts")], thorough=[("py", "c11_conformance"), ("l1", "fmt"), ("l1", "opts")]),
         rule="archives of both writers over random sources/configs/hash lengths/compression/metadata (incl. empty key, non-ASCII, long values): "
              "Python conformance checklist on the raw bytes; prost vs model: encode-dict byte-exact, decode-dict field-exact on encodings, "
              "crafted additions (unknown fields, groups, duplicates, unpacked, overlong varints, bad UTF-8) and mutations; header::build",
